@@ -669,6 +669,38 @@ def o5_exit_code(chk: Check) -> None:
         chk.undecided("C05.O5", ies, "engine exception => FatalError", "engine execute() call not found", ies.loc())
 
 
+# --------------------------------------------------------------------------------------------- O8
+def o8_statistic_accumulates(chk: Check) -> None:
+    chk.rule("C05.O8", "the per-label failure store accumulates: what on_scenario_finished writes to statistic.failures[label] starts from the entry already stored for that label (scenarios of several phases share a label)", floor=2)
+    P = chk.project
+    fn = P.func("cli/commands/run/context.py:Statistic.on_scenario_finished")
+    stores = [n for n in walk_body(fn.node) if isinstance(n, ast.Assign) and any(isinstance(t, ast.Subscript) and dotted(t.value) == "self.failures" for t in n.targets)]
+    if not stores:
+        chk.violation("C05.O8", fn, "self.failures[label] = ...", "recorded failures are never stored for the report", fn.loc())
+        return
+    for st in stores:
+        key = unparse(next(t for t in st.targets if isinstance(t, ast.Subscript)).slice)
+        v = st.value
+        construct = f"self.failures[{key}] = {unparse(v, 40)}"
+        if isinstance(v, ast.Name):
+            vals = [val for _, val in assignments_to(fn.node, v.id) if val is not None]
+            merges = any(isinstance(val, ast.Call) and last_attr(val) in ("get", "setdefault", "pop") and "self.failures" in unparse(val.func) and unparse(val.args[0]) == key for val in vals if isinstance(val, ast.Call) and val.args)
+            fresh = bool(vals) and all(isinstance(val, (ast.Dict, ast.DictComp)) or (isinstance(val, ast.Call) and dotted(val.func) == "dict" and not val.args) for val in vals)
+            if merges:
+                chk.ok("C05.O8", fn, construct, "starts from the existing entry", fn.loc(st))
+            elif fresh:
+                chk.violation("C05.O8", fn, construct, "the entry for the label is REPLACED by a fresh dict: a failure found for the same operation in an earlier phase (or an earlier stateful scenario) disappears from the report", fn.loc(st))
+            else:
+                chk.undecided("C05.O8", fn, construct, "origin of the stored mapping not recognised", fn.loc(st))
+        else:
+            chk.undecided("C05.O8", fn, construct, "stored value is not a local", fn.loc(st))
+    # each new unique failure is put into that mapping keyed by case id
+    adds = [n for n in walk_body(fn.node) if isinstance(n, ast.Assign) and any(isinstance(t, ast.Subscript) and dotted(t.value) == "failures" for t in n.targets)]
+    chk.decide(bool(adds) and any("GroupedFailures" in unparse(a.value, 300) and "code_sample" in unparse(a.value, 300) for a in adds), "C05.O8", fn, "failures[case_id] = GroupedFailures(code_sample=..., failures=...)", "new failures are not stored together with the request that caused them", fn.loc())
+    oe = P.func("cli/commands/run/context.py:ExecutionContext.on_event")
+    chk.decide(any(last_attr(c) == "on_scenario_finished" and unparse(c.args[0]) == "event.recorder" for c in body_calls(oe) if c.args), "C05.O8", oe, "every ScenarioFinished feeds the statistic", "finished scenarios are not folded into the statistic", oe.loc())
+
+
 # --------------------------------------------------------------------------------------------- O6 / O7
 def o6_marks(chk: Check) -> None:
     shared.example_marks_rule(chk, "C05.O6")
@@ -695,4 +727,4 @@ def o7_plumbing(chk: Check) -> None:
 
 
 def rules(tier: str) -> list:  # type: ignore[type-arg]
-    return [o1_thread_targets, o2_run_test_ladder, o3_failure_recording, o3b_run_checks, o4_status_folding, o5_exit_code, o6_marks, o7_plumbing]
+    return [o1_thread_targets, o2_run_test_ladder, o3_failure_recording, o3b_run_checks, o4_status_folding, o5_exit_code, o6_marks, o7_plumbing, o8_statistic_accumulates]
